@@ -595,10 +595,12 @@ def parseOp? (s : State) : List String → Option (Op × Oracle)
   | _ => none
 
 /-- Driver state: the model state plus, for the current history, the state before each call and
-its plan (so that a crash image `(call index, marker, occurrence)` can be located). -/
+its plan (so that a crash image `(call index, marker, occurrence)` can be located).  After a
+`fork` the calls run on the crash image and are no longer recorded. -/
 structure DSt where
   s : State := {}
   started : Bool := false
+  forked : Bool := false
   hist : Array (State × List Step) := #[]
 
 /-- prefix of `steps` up to and including the `k`-th (1-based) `marker name`. -/
@@ -614,7 +616,7 @@ def prefixAt (steps : List Step) (name : String) (k : Nat) : Option (List Step) 
 def stepCommon (d : DSt) : List String → DSt × String
   | ["reset", cfg] =>
     match parseCfg? cfg with
-    | some c => ({ s := init c, started := true, hist := #[] }, "ok")
+    | some c => ({ s := init c, started := true, forked := false, hist := #[] }, "ok")
     | none => (d, "bad-op")
   | ws =>
     if !d.started then (d, "bad-op") else
@@ -623,35 +625,25 @@ def stepCommon (d : DSt) : List String → DSt × String
     | some (op, orc) =>
       let p := plan d.s orc op
       let s' := applySteps d.s p.1
-      ({ d with s := s', hist := d.hist.push (d.s, p.1) }, showOp p.1 p.2 s')
+      ({ d with s := s', hist := if d.forked then d.hist else d.hist.push (d.s, p.1) }, showOp p.1 p.2 s')
 
-/-- `image <call idx> <marker> <occ> <cfg> mf= uf= order=`: restart on the crash image taken at that
-marker, then one Cleanup pass. -/
-def stepImage (d : DSt) : List String → String
-  | [idx, mk, occ, cfg, mf, uf, ord] =>
-    match idx.toNat?, occ.toNat?, parseCfg? cfg, parseOracle? mf "cf=-" uf, parseFlag? "order=" ord with
-    | some idx, some occ, some cfg, some orc, some ord =>
+/-- `fork <call idx> <marker> <occ>`: continue on the crash image taken when that marker fired for
+the occ-th time inside that call of the recorded history (the process is dead: the next call
+must be `restart`). -/
+def stepFork (d : DSt) : List String → DSt × String
+  | [idx, mk, occ] =>
+    match idx.toNat?, occ.toNat? with
+    | some idx, some occ =>
       match d.hist[idx]? with
-      | none => "bad-op"
+      | none => (d, "bad-op")
       | some (s0, steps) =>
         match prefixAt steps mk occ with
-        | none => "no-such-crash-point"
+        | none => (d, "no-such-crash-point")
         | some pre =>
-          let img := crash (applySteps s0 pre)
-          let p := plan (ofDurable img cfg) orc (.restart cfg)
-          let s1 := applySteps (ofDurable img cfg) p.1
-          let head := s!"restore={showRes p.2} tr={showTrace p.1} ls={showLs s1.dirs} meta={showMeta s1}"
-          match p.2 with
-          | .ok =>
-            match parseDirs? s1.dirs ord with
-            | none => "bad-op"
-            | some order =>
-              let c := plan s1 orc (.cleanup order)
-              let s2 := applySteps s1 c.1
-              head ++ s!" | cleanup={showRes c.2} tr={showTrace c.1} ls={showLs s2.dirs}"
-          | _ => head
-    | _, _, _, _, _ => "bad-op"
-  | _ => "bad-op"
+          let s := ofDurable (crash (applySteps s0 pre)) s0.cfg
+          ({ d with s := s, forked := true }, s!"ok ls={showLs s.dirs} meta={showMeta s}")
+    | _, _ => (d, "bad-op")
+  | _ => (d, "bad-op")
 
 end Wire
 
